@@ -26,6 +26,8 @@ structure Item where
   err : Option Err
   blocks : Bool := false      -- returns only once its execution is cancelled
   sleeps : Bool := false      -- takes longer than any configured retry max duration before it returns
+  adv : Int := 0              -- the invocation advances the (virtual) clock of the breakers and rate limiters by this much: time passes
+                              -- *during* an execution (a breaker's delay elapses between two attempts, a limiter's next permit becomes free)
 deriving Repr
 
 /-- an emitted listener call with the execution statistics it observed -/
@@ -173,7 +175,8 @@ def base : Layer := fun r =>
   match r.script with
   | [] => some (fnResult 0 none, { r with inv := r.inv + 1, execs := r.execs + 1 })
   | it :: rest =>
-    let r := { r with script := rest, inv := r.inv + 1, slept := r.slept + (if it.sleeps then 1 else 0) }
+    let r := { r with script := rest, inv := r.inv + 1, slept := r.slept + (if it.sleeps then 1 else 0),
+                      w := { r.w with now := r.w.now + it.adv } }
     if it.blocks then
       if r.ext.isSome then some (fnResult it.val it.err, { r with execs := r.execs + 1 })   -- released by the external cancellation
       else if !r.inTimeout then none
